@@ -1082,6 +1082,22 @@ def triu_indices(n, k=0, m=None):
     return (ndarray._new(rows, (len(rows),), int64), ndarray._new(cols, (len(cols),), int64))
 
 
+def diag_indices(n, ndim=2):
+    n = n.__index__()
+    idx = ndarray._new(list(range(n)), (n,), int64)
+    return tuple(idx.copy() for _ in range(ndim))
+
+
+def diag_indices_from(a):
+    return diag_indices(asarray(a).shape[0], asarray(a).ndim)
+
+
+def fill_diagonal(a, val):
+    n = builtins.min(a.shape)
+    for i in range(n):
+        a[i, i] = val
+
+
 def tril_indices(n, k=0, m=None):
     n = n.__index__()
     m = n if m is None else m.__index__()
